@@ -5,6 +5,7 @@ The decoders, numpy allocation and convert() are contract shims (their behaviour
 import os
 from typing import List
 
+import numpy as np
 import pandas as pd
 
 from vf.pyshim.kit import REPLAY
@@ -80,6 +81,20 @@ class BVec(NDArr):
                 raise IndexError("boolean index did not match indexed array: %d vs %d" % (len(k), len(self.items)))
             return BVec([x for x, m in zip(self.items, k.items) if m])
         return self.items[k]
+
+    def __setitem__(self, k, v):
+        if isinstance(k, slice):
+            dst = self[k]
+            if isinstance(v, BVec):
+                if len(v) != len(dst):
+                    raise ValueError("could not broadcast %d values into %d slots" % (len(v), len(dst)))
+                for i, x in enumerate(v.items):
+                    dst.items[i] = x
+            else:
+                for i in range(len(dst)):
+                    dst.items[i] = v
+            return
+        self.items[k] = v
 
     def __invert__(self):
         return BVec([not x for x in self.items])
@@ -191,13 +206,20 @@ class Arr:
 class Masked:
     """pandas masked extension array as read_data_page_v2 uses it: ._mask (bool per row) and ._data"""
 
-    def __init__(self, n):
+    def __init__(self, n, mask=None, data=None):
         self.dtype = pd.Int64Dtype()
-        self._mask = BVec([False] * n)
-        self._data = Arr(["unset"] * n, dtype=_IDtype())
+        self._mask = BVec([False] * n) if mask is None else mask
+        self._data = Arr(["unset"] * n, dtype=_IDtype()) if data is None else data
 
     def __len__(self):
         return len(self._mask)
+
+    def __getitem__(self, k):
+        # a slice of a masked array is a view on both of its parts
+        if not isinstance(k, slice):
+            raise IndexError(k)
+        m = self._mask[k]
+        return Masked(len(m), m, self._data[k])
 
 
 class _Dic:
@@ -379,7 +401,7 @@ class _Raw:
         return b""
 
 
-def run(levels, codes):
+def run(levels, codes, mask=None):
     n = len(levels)
     pages, pos, vi = [], 0, 0
     for r in ROWS:
@@ -391,7 +413,12 @@ def run(levels, codes):
         vi += nv
         pos += r
     PAGES[0] = pages
-    assign = Masked(n) if OUT == "nullable" else Arr(["unset"] * n)
+    nsel = n
+    if mask is not None:
+        nsel = 0
+        for m in mask:
+            nsel += 1 if m else 0
+    assign = Masked(nsel) if OUT == "nullable" else Arr(["unset"] * nsel)
     md = parquet_thrift.ColumnMetaData(type=HELPER.schema_element(["x"]).type, path_in_schema=["x"], num_values=n,
                                        data_page_offset=4, total_compressed_size=100, codec=0)
     col = parquet_thrift.ColumnChunk(meta_data=md)
@@ -403,7 +430,7 @@ def run(levels, codes):
     core.decompress_data = lambda data, size, codec: data
     core.read_plain = _s_read_plain
     try:
-        core.read_col(col, HELPER, _Raw(), assign=assign)
+        core.read_col(col, HELPER, _Raw(), assign=assign, row_filter=None if mask is None else BVec(list(mask)))
     finally:
         (core.encoding, core.ThriftObject, core.read_dictionary_page, core.np, core.convert, core.decompress_data,
          core.read_plain) = saved
@@ -421,6 +448,79 @@ def expected(levels, codes):
         else:
             out.append(NAN)
     return out
+
+
+def h_read_col_v2_masked(levels: List[int], codes: List[int], mask: List[bool]) -> bool:
+    """
+    pre: len(levels) == sum(ROWS) and all(0 <= x <= 1 for x in levels) and (OPTIONAL or all(x == 1 for x in levels))
+    pre: _codes_ok(levels, codes) and len(mask) == len(levels)
+    post: __return__
+    """
+    # a boolean row mask over the chunk: exactly the selected rows, in order
+    want = [v for v, m in zip(expected(levels, codes), mask) if m]
+    return run(levels, codes, mask) == want
+
+
+def _pages_const():
+    """the concrete driver writes pages of a constant number of rows (the last one may be shorter)"""
+    return len(set(ROWS[:-1])) <= 1 and ROWS[-1] <= ROWS[0]
+
+
+def _series(vals):
+    if PHYS == "double" or OUT != "nullable":
+        ser = pd.Series([np.nan if v is None else float(v) for v in vals], dtype="float64")
+    else:
+        ser = pd.Series(pd.array(vals, dtype="Int64"))
+    if ENC == "dict":
+        ser = pd.Series(pd.Categorical(ser, categories=[float(x) if ser.dtype.kind == "f" else x for x in LABELS]))
+    return ser
+
+
+def replay_h_read_col_v2_masked(levels, codes, mask):
+    """a real v2 file (written by this library page by page; DELTA pages built from the specification), read with the
+    witness's row mask through ParquetFile.to_pandas(row_filter=...)"""
+    import shutil, tempfile
+    import fastparquet
+    from fastparquet import writer as w
+    vals, vi = [], 0
+    for lv in levels:
+        if lv == 1:
+            vals.append(LABELS[codes[vi]] if ENC == "dict" else codes[vi])
+            vi += 1
+        else:
+            vals.append(None)
+    spec_dict = ENC == "dict" and PHYS == "int64"       # INT64 dictionary column built from the specification
+    if ENC != "delta" and not spec_dict and not _pages_const():
+        return None, "pages of these sizes cannot be produced by the concrete driver"
+    d = tempfile.mkdtemp(prefix="c13-")
+    old = (w._rows_per_page, w.DATAPAGE_VERSION)
+    try:
+        fn = os.path.join(d, "t.parq")
+        if ENC == "delta":
+            from vf.pyshim import flat_file
+            flat_file.build(fn, [int(v) for v in vals], 64, 2, True)
+        elif spec_dict:
+            from vf.pyshim import flat_file
+            flat_file.build_dict(fn, LABELS, list(codes), 2, nulls=[lv != 1 for lv in levels], optional=OPTIONAL,
+                                 version=2, page_rows=ROWS)
+        else:
+            w._rows_per_page = lambda data, se, has_nulls=True, page_size=None: ROWS[0]
+            w.DATAPAGE_VERSION = 2
+            fastparquet.write(fn, pd.DataFrame({"x": _series(vals)}), has_nulls=OPTIONAL)
+        try:
+            pf = fastparquet.ParquetFile(fn, pandas_nulls=(OUT == "nullable"))
+            out = pf.to_pandas(row_filter=np.array(mask, dtype=bool), categories=[] if ENC == "dict" else None)["x"]
+        except Exception as ex:
+            return True, "v2 column %r (%s pages of %r rows) read with mask %r fails: %s: %s" % (
+                vals, ENC, ROWS, mask, type(ex).__name__, str(ex)[:80])
+        got = [None if pd.isna(x) else float(x) for x in out.astype(object)]
+        want = [None if v is None else float(v) for v, m in zip(vals, mask) if m]
+        if got != want:
+            return True, "v2 column %r (%s pages of %r rows) read with mask %r gives %r" % (vals, ENC, ROWS, mask, got)
+        return False, "agrees"
+    finally:
+        w._rows_per_page, w.DATAPAGE_VERSION = old
+        shutil.rmtree(d, ignore_errors=True)
 
 
 def _codes_ok(levels, codes):
@@ -458,23 +558,15 @@ def replay_h_read_col_v2(levels, codes):
             vi += 1
         else:
             vals.append(None)
-    if len(set(ROWS)) != 1:
-        return None, "pages of different sizes cannot be produced by the concrete driver"
+    if not _pages_const():
+        return None, "pages of these sizes cannot be produced by the concrete driver"
     d = tempfile.mkdtemp(prefix="c03-")
     old = (w._rows_per_page, w.DATAPAGE_VERSION)
     try:
         w._rows_per_page = lambda data, se, has_nulls=True, page_size=None: ROWS[0]
         w.DATAPAGE_VERSION = 2
         fn = os.path.join(d, "t.parq")
-        if PHYS == "double":
-            ser = pd.Series([np.nan if v is None else float(v) for v in vals], dtype="float64")
-        elif OUT == "nullable":
-            ser = pd.Series(pd.array(vals, dtype="Int64"))
-        else:
-            ser = pd.Series([np.nan if v is None else float(v) for v in vals], dtype="float64")
-        if ENC == "dict":
-            ser = pd.Series(pd.Categorical(ser, categories=[float(x) if ser.dtype.kind == "f" else x for x in LABELS]))
-        fastparquet.write(fn, pd.DataFrame({"x": ser}), has_nulls=OPTIONAL)
+        fastparquet.write(fn, pd.DataFrame({"x": _series(vals)}), has_nulls=OPTIONAL)
         try:
             out = fastparquet.ParquetFile(fn).to_pandas(categories=[] if ENC == "dict" else None)["x"]
         except Exception as ex:
